@@ -212,3 +212,13 @@ Definition avoidsb (sch : schema) (h : heap) (root : oid) (path : string) : bool
    sch_le of PathsProofs.v) *)
 Definition sch_leb (s s' : schema) : bool :=
   forallb (fun e => forallb (fun f => is_feature s' (fst e) f) (snd e)) s.
+
+(* ---------------------------------------------------------------- reserved UIMA feature names *)
+
+(* create_feature (typesystem.py:1134-1141): a feature declared with the name "self" or "type" is stored --
+   and looked up by Type.get_feature -- under the accessor name "self_" / "type_"; every other name is kept.
+   A schema given by DECLARED names denotes the schema of accessor names. *)
+Definition accessor (f : fname) : fname :=
+  if String.eqb f "self" || String.eqb f "type" then f ++ "_" else f.
+Definition declared (d : list (tname * list fname)) : schema :=
+  map (fun e => (fst e, map accessor (snd e))) d.
